@@ -17,7 +17,8 @@ THEOREMS = ['C14.postOrder_nodup', 'C14.eval_order', 'C14.eval_prefix', 'C14.eva
             'C14.depth_refused', 'C14.depth_error', 'C14.getCommand_prefix', 'C14.getCommand_enabled',
             'C14.owns_not_disabled', 'C14.dispatch_qualified', 'C14.dispatch_ambiguous', 'C14.ambiguous_runs_nothing',
             'C14.dispatch_unique', 'C14.special_table_ok', 'C14.canonicalName_idem',
-            'C14.disabled_history', 'C14.disabled_step', 'C14.enable_error_erases_entry']
+            'C14.disabled_history', 'C14.disabled_step', 'C14.enable_error_changes_nothing', 'C14.enable_ok_step',
+            'C14.enable_global_keeps_plugin_entry']
 TRUSTED = ['Lean 4.33.0 kernel; axioms ⊆ {propext, Classical.choice, Quot.sound}',
            'harness/extractors/canonicalname.py (the `special` characters of canonicalName → Gen/CanonicalName.lean)',
            'harness/c14.py: introspection of the loaded plugins (names, command methods, nested groups) into the model input; generators; canonicalisation of the bot\'s replies',
@@ -297,10 +298,9 @@ def cut_foreign(outcome, calls, ig):
             return 'foreign\t@\t%s' % canon_calls(calls[:k + 1])
     return '%s\t@\t%s\t%s' % (outcome, canon_calls(calls), ig)
 
-FINDING_ENABLE = 'C14-global-enable-error-erases-plugin-entry'
 
 def in_enable_class(history, since, c, cn):
-    """known-finding class: after the per-plugin disable of `c` (index `since`) a GLOBAL-form `enable c` was
+    """the failure repaired by fix 6f88b83 (used to word the replay): after the per-plugin disable of `c` (index `since`) a GLOBAL-form `enable c` was
     answered with an error ("That command wasn't disabled.") — it has nevertheless deleted the whole
     store entry of `c`, per-plugin disables included"""
     for (text, rep) in history[since + 1:]:
@@ -718,7 +718,7 @@ def explore(live, r, n_worlds, per_world, corpus=()):
                                 cse.oracle_msg = 'after the owner commands %r: %s.%s ran (args %r) although it is disabled and was not enabled again' % (history, pl, cmdw[-1], a)
                                 cse.input['history'] = [list(h) for h in history]
                                 if in_enable_class(history, last_marked.get((cn(pl), cmdw[-1]), -1), cmdw[-1], cn):
-                                    cse.finding = FINDING_ENABLE
+                                    cse.oracle_msg += ' (the defect repaired by fix 6f88b83: an errored global enable erased the per-plugin entry)'
                                 break
                     cse.input.pop('_calls', None)
         names = sorted(set(BARE + [x for rec in live.records for x in rec[4][:6]] + [rec[2].lower() for rec in live.records]))
